@@ -30,6 +30,23 @@ def family_check(ck, names, k, tag, parts=16, rounds=1):
     return total
 
 
+def generator_clause(ck, parts=None, tag='gen'):
+    """The project's own hardware-test generator (GenerateTestCasesToFile, about 82k vectors, 4 per enabled opcode), loaded the
+    way the project's verifier loads them: IsaTrace additionally requires no abort, pc advance = decoded length, no second
+    word for a one-word instruction, every data access inside the two compared windows.  parts: which of the 16 interleaved
+    shards to validate (None: all; (0, 4, 8, 12): one vector per opcode)."""
+    ck.build('isa_rec')
+    gen = os.path.join(ck.work, '%s_cases.bin' % tag)
+    ck.run_jobs(['%s --mode genmake:%s --out %s' % (ck.bin('isa_rec'), gen, os.path.join(ck.work, '%s_make.ndjson' % tag))], timeout=600)
+    shards = list(range(16)) if parts is None else list(parts)
+    gfiles = [os.path.join(ck.work, '%s_%02d.ndjson' % (tag, i)) for i in shards]
+    ck.run_jobs(['%s --mode genfile:%s:%d/16 --out %s' % (ck.bin('isa_rec'), gen, i, f) for i, f in zip(shards, gfiles)], timeout=900)
+    os.remove(gen)
+    ck.validate_traces('IsaTrace', 'Trace_Isa.cfg', gfiles, timeout=2400, sig_prefix='generator')
+    ck.extra_cov['generator_vectors'] = sum(sum(1 for _ in open(f)) for f in gfiles)
+    return gfiles
+
+
 ISA_ASSUMPTIONS = [
     'the TLA+ instruction semantics is a frozen hand transcription of the pinned interpreter.h',
     'states are well formed (fields within hardware widths, lp = (bcn # 0), prpage = 0, pc away from the ends)',
